@@ -124,7 +124,7 @@ def negative_controls(ctx, consts, traces, verdicts):
 
 
 CONFIGS_QUICK = [
-  dict(nd=2, maxq=2, mpm=2, flow=True, dynamic=False, nr=1),
+  dict(nd=2, maxq=2, mpm=2, flow=True, dynamic=False, nr=1, wbuf=True),
   dict(nd=2, maxq=4, mpm=2, flow=True, dynamic=True, max_retries=1, nr=1),
   dict(nd=1, maxq=2, mpm=1, flow=False, dynamic=False, nr=1, protocol='line'),
   dict(nd=2, maxq=4, mpm=2, flow=True, dynamic=False, nr=1, ratio=True),       # USE_RATIO_RESET: Slow / Fast events, quality resets
